@@ -73,4 +73,42 @@ def monC13q (c : MonCtx) : Mon C13qSt where
       let st := if l.isFailure then { st with failure := true } else st
       if l.terminates then some { st with terminated := true } else some st
 
+/-! ### fairness of the loop's tie-break (trace-only, statistical)
+
+  "Messages sent to its address are handled too, interleaved with items" and "an explicit stop terminates it
+  even if the stream never ends": while both the stream and the mailbox are ready the loop picks between them
+  at random (`futures::select!`), so the number of further items taken up while an accepted stop request or an
+  acknowledged message waits is geometrically distributed; more than `fairBound` of them has probability
+  2^-40 per occasion with a fair coin and is certain for a loop that always prefers the stream.  The model has
+  no fairness notion, so this clause is checked on real traces only. -/
+
+def fairBound : Nat := 40
+
+structure C13fSt where
+  stopAccepted : Bool
+  afterStop : Nat               -- items taken up since the first accepted stop request
+  sends : List (Nat × Nat)      -- operation ↦ message
+  waiting : List (Nat × Nat)    -- acknowledged, not yet handled message ↦ items taken up since
+  handled : List Nat
+  deriving Repr, DecidableEq
+
+def monC13f (c : MonCtx) : Mon C13fSt where
+  init := { stopAccepted := false, afterStop := 0, sends := [], waiting := [], handled := [] }
+  step st l :=
+    if !c.cfg.stream then some st else
+    match l with
+    | .stopReq _ true | .ctxStop true => some { st with stopAccepted := true }
+    | .begin o _ (.send m) | .begin o _ (.trySend m) => some { st with sends := (o, m) :: st.sends }
+    | .ret o .ok =>
+      (match lookup o st.sends with
+       | some m => if st.handled.contains m then some st else some { st with waiting := (m, 0) :: st.waiting }
+       | none => some st)
+    | .cbBegin (.handle m) =>
+      some { st with waiting := st.waiting.filter (fun p => p.1 != m), handled := m :: st.handled }
+    | .cbBegin (.item _) =>
+      let st' := { st with afterStop := (if st.stopAccepted then st.afterStop + 1 else 0),
+                           waiting := st.waiting.map (fun p => (p.1, p.2 + 1)) }
+      if st'.afterStop > fairBound || st'.waiting.any (fun p => p.2 > fairBound) then none else some st'
+    | _ => some st
+
 end Hannibal
